@@ -17,6 +17,8 @@
 (*          ctx.TimeoutError: the ctx is replaced before the response is    *)
 (*          written), "bad" (malformed head), "hijack" (handler             *)
 (*          hijacks), "hijacknr" (hijack + HijackSetNoResponse)             *)
+(*          "nrflag" (handler calls HijackSetNoResponse(true) WITHOUT       *)
+(*          hijacking: an ordinary request; the flag is per request)        *)
 (*   hclose: handler calls SetConnectionClose                               *)
 (***************************************************************************)
 EXTENDS Integers, Sequences, FiniteSets, TLC
